@@ -232,11 +232,14 @@ def cmd_phase1(a):
 def cmd_phase2(a):
     p1 = [c for c in load("phase1.jsonl") if c["status"] == "survivor"]
     done = {c["id"] for c in load("phase2.jsonl")}
-    wt = os.path.join(ROOT, "p2-wt")
-    bd = os.path.join(ROOT, "p2-build")
+    si, sn = (int(x) for x in a.shard.split("/"))
+    wt = os.path.join(ROOT, "p2-wt" + (str(si) if si else ""))
+    bd = os.path.join(ROOT, "p2-build" + (str(si) if si else ""))
     ensure_wt(wt, build=False)
-    for c in p1:
-        if c["id"] in done:
+    for k, c in enumerate(p1):
+        if k % sn != si:
+            continue
+        if c["id"] in {x["id"] for x in load("phase2.jsonl")}:
             continue
         sh("git reset -q --hard", cwd=wt)
         if not apply_mut(wt, c):
@@ -285,9 +288,11 @@ def cmd_report(a):
 def cmd_clean(a):
     for d in os.listdir(ROOT):
         p = os.path.join(ROOT, d)
-        if d.startswith("p1-") or d == "p2-wt":
+        if d.startswith("p1-") or d.startswith("p2-wt"):
             sh("git -C %s worktree remove --force %s" % (REPO, p))
-    shutil.rmtree(os.path.join(ROOT, "p2-build"), ignore_errors=True)
+    for d in os.listdir(ROOT):
+        if d.startswith("p2-build"):
+            shutil.rmtree(os.path.join(ROOT, d), ignore_errors=True)
 
 
 if __name__ == "__main__":
@@ -300,5 +305,6 @@ if __name__ == "__main__":
     ap.add_argument("--workers", type=int, default=2)
     ap.add_argument("--jobs", type=int, default=6)
     ap.add_argument("--maxchecks", type=int, default=3)
+    ap.add_argument("--shard", default="0/1")
     a = ap.parse_args()
     {"gen": cmd_gen, "phase1": cmd_phase1, "phase2": cmd_phase2, "report": cmd_report, "clean": cmd_clean}[a.cmd](a)
